@@ -45,6 +45,7 @@ Proof.
       cbn [flat_map]. rewrite E. cbn [app]. eauto.
   - (* ESum *) destruct IHe as (b & t & -> & Hb). cbn [app]. eauto.
   - (* EAttrPost *) destruct IHe as (b & t & -> & Hb). cbn [app]. eauto.
+  - (* EMem *) destruct m, k; cbn [mem_ptg cls_ptg app]; eexists; eexists; (split; [reflexivity|discriminate]).
 Qed.
 
 Lemma exp_target_plain : forall e, exp_target (frame_xls (encode_xls e)) = None.
@@ -89,10 +90,10 @@ Qed.
 Lemma wf_base_some : forall p q e, wf_xls (env (Some p)) e = wf_xls (env (Some q)) e.
 Proof. reflexivity. Qed.
 
-Lemma wf_allow_mono : forall rowlim wi nn ws e,
-  wf rowlim wi nn ws false e = true -> wf rowlim wi nn ws true e = true.
+Lemma wf_allow_mono : forall rowlim wi nn ws el rb e,
+  wf rowlim wi nn ws false el rb e = true -> wf rowlim wi nn ws true el rb e = true.
 Proof.
-  intros rowlim wi nn ws. induction e using expr_ind'; cbn [wf]; intros Hwf; try assumption;
+  intros rowlim wi nn ws el rb. induction e using expr_ind'; cbn [wf]; intros Hwf; try assumption;
     try (apply IHe; assumption); try discriminate.
   - (* EBin *)
     apply andb_prop in Hwf. destruct Hwf as [Hwf Hb]. apply andb_prop in Hwf. destruct Hwf as [Hop Ha].
@@ -112,15 +113,17 @@ Proof.
     apply andb_prop in Hwf. destruct Hwf as [Hwf Ha]. rewrite Hwf, (IHe Ha). reflexivity.
   - (* EAttrChoose *)
     apply andb_prop in Hwf. destruct Hwf as [Hwf Ha]. rewrite Hwf, (IHe Ha). reflexivity.
+  - (* EMem *)
+    apply andb_prop in Hwf. destruct Hwf as [Hwf Ha]. rewrite Hwf, (IHe Ha). reflexivity.
 Qed.
 
 Lemma wf_none_some : forall p e, wf_xls (env None) e = true -> wf_xls (env (Some p)) e = true.
 Proof. intros p e H. unfold wf_xls in *. cbn [xe_base env_at xe_names] in *. apply wf_allow_mono. exact H. Qed.
 
-Lemma render_no_n : forall sf sh nm tr tr' rowlim wi nn ws e,
-  wf rowlim wi nn ws false e = true -> render sf sh nm tr e = render sf sh nm tr' e.
+Lemma render_no_n : forall sf sh nm tr tr' rowlim wi nn ws el rb e,
+  wf rowlim wi nn ws false el rb e = true -> render sf sh nm tr e = render sf sh nm tr' e.
 Proof.
-  intros sf sh nm tr tr' rowlim wi nn ws. induction e using expr_ind'; cbn [wf render]; intros Hwf;
+  intros sf sh nm tr tr' rowlim wi nn ws el rb. induction e using expr_ind'; cbn [wf render]; intros Hwf;
     try reflexivity; try discriminate.
   - (* EUn *) destruct op; rewrite (IHe Hwf); reflexivity.
   - (* EBin *)
@@ -144,6 +147,7 @@ Proof.
   - (* EAttrSkip *) apply andb_prop in Hwf. destruct Hwf as [_ Ha]. apply IHe. exact Ha.
   - (* EAttrPost *) apply andb_prop in Hwf. destruct Hwf as [_ Ha]. apply IHe. exact Ha.
   - (* EAttrChoose *) apply andb_prop in Hwf. destruct Hwf as [_ Ha]. apply IHe. exact Ha.
+  - (* EMem *) apply andb_prop in Hwf. destruct Hwf as [_ Ha]. apply IHe. exact Ha.
 Qed.
 
 Lemma render_array_any_base : forall p e, wf_xls (env None) e = true ->
